@@ -54,6 +54,22 @@ def arg (toks : List String) (k : String) : String :=
   | some t => (t.drop (k.length + 1)).toString
   | none => ""
 
+def hexVal (c : Char) : Nat :=
+  if '0' ≤ c ∧ c ≤ '9' then c.toNat - '0'.toNat
+  else if 'a' ≤ c ∧ c ≤ 'f' then c.toNat - 'a'.toNat + 10
+  else if 'A' ≤ c ∧ c ≤ 'F' then c.toNat - 'A'.toNat + 10
+  else 0
+
+/-- percent-decoding (inverse of Go's url.QueryEscape with %20 for space) -/
+def pctDecode (s : String) : String :=
+  let rec go : List Char → ByteArray → ByteArray
+    | [], acc => acc
+    | '%' :: a :: b :: r, acc => go r (acc.push (UInt8.ofNat (hexVal a * 16 + hexVal b)))
+    | c :: r, acc => go r (c.toString.toUTF8.foldl (fun a x => a.push x) acc)
+  match String.fromUTF8? (go s.toList ByteArray.empty) with
+  | some r => r
+  | none => s
+
 /-- A driver engine: state machine over token lists. -/
 structure Engine where
   State : Type
